@@ -77,7 +77,7 @@ class Prop:
     id = "C34"
     level = "exploration"
     engine = "TH (controlled threads: baton passing, line-level pre-emption points, simulated locks/timers/clock)"
-    quick_runs = 25000
+    quick_runs = 16000
     thorough_runs = 300000
     chunk = 100
     time_unit = "simulated seconds"
